@@ -452,32 +452,35 @@ pub struct Par<'a, T> {
     thunks: Vec<Thunk<'a, T>>,
     /// false once the iterator lost its index (par_bridge): collect order = execution order
     indexed: bool,
+    /// every thunk only hands over a value that exists already (a source, or the staged results of an earlier region): driving
+    /// such an indexed iterator runs no closure of the subject, so no region is opened for it
+    ready: bool,
 }
 
 impl<'a, T: Send + 'a> Par<'a, T> {
     pub(crate) fn from_items<I: IntoIterator<Item = T>>(items: I, indexed: bool) -> Par<'a, T> {
-        Par { thunks: items.into_iter().map(|x| Box::new(move || Some(x)) as Thunk<'a, T>).collect(), indexed }
+        Par { thunks: items.into_iter().map(|x| Box::new(move || Some(x)) as Thunk<'a, T>).collect(), indexed, ready: true }
     }
     pub fn map<R: Send + 'a, F: Fn(T) -> R + Send + Sync + 'a>(self, f: F) -> Par<'a, R> {
         let f = Arc::new(f);
-        Par { indexed: self.indexed, thunks: self.thunks.into_iter().map(|t| { let f = f.clone(); Box::new(move || t().map(|x| f(x))) as Thunk<'a, R> }).collect() }
+        Par { indexed: self.indexed, ready: false, thunks: self.thunks.into_iter().map(|t| { let f = f.clone(); Box::new(move || t().map(|x| f(x))) as Thunk<'a, R> }).collect() }
     }
     pub fn filter<F: Fn(&T) -> bool + Send + Sync + 'a>(self, f: F) -> Par<'a, T> {
         let f = Arc::new(f);
-        Par { indexed: self.indexed, thunks: self.thunks.into_iter().map(|t| { let f = f.clone(); Box::new(move || t().filter(|x| f(x))) as Thunk<'a, T> }).collect() }
+        Par { indexed: self.indexed, ready: false, thunks: self.thunks.into_iter().map(|t| { let f = f.clone(); Box::new(move || t().filter(|x| f(x))) as Thunk<'a, T> }).collect() }
     }
     pub fn filter_map<R: Send + 'a, F: Fn(T) -> Option<R> + Send + Sync + 'a>(self, f: F) -> Par<'a, R> {
         let f = Arc::new(f);
-        Par { indexed: self.indexed, thunks: self.thunks.into_iter().map(|t| { let f = f.clone(); Box::new(move || t().and_then(|x| f(x))) as Thunk<'a, R> }).collect() }
+        Par { indexed: self.indexed, ready: false, thunks: self.thunks.into_iter().map(|t| { let f = f.clone(); Box::new(move || t().and_then(|x| f(x))) as Thunk<'a, R> }).collect() }
     }
     pub fn inspect<F: Fn(&T) + Send + Sync + 'a>(self, f: F) -> Par<'a, T> {
         self.map(move |x| { f(&x); x })
     }
     pub fn enumerate(self) -> Par<'a, (usize, T)> {
-        Par { indexed: self.indexed, thunks: self.thunks.into_iter().enumerate().map(|(i, t)| Box::new(move || t().map(|x| (i, x))) as Thunk<'a, (usize, T)>).collect() }
+        Par { indexed: self.indexed, ready: false, thunks: self.thunks.into_iter().enumerate().map(|(i, t)| Box::new(move || t().map(|x| (i, x))) as Thunk<'a, (usize, T)>).collect() }
     }
     pub fn zip<U: Send + 'a>(self, other: Par<'a, U>) -> Par<'a, (T, U)> {
-        Par { indexed: self.indexed && other.indexed, thunks: self.thunks.into_iter().zip(other.thunks).map(|(a, b)| Box::new(move || match (a(), b()) { (Some(x), Some(y)) => Some((x, y)), _ => None }) as Thunk<'a, (T, U)>).collect() }
+        Par { indexed: self.indexed && other.indexed, ready: false, thunks: self.thunks.into_iter().zip(other.thunks).map(|(a, b)| Box::new(move || match (a(), b()) { (Some(x), Some(y)) => Some((x, y)), _ => None }) as Thunk<'a, (T, U)>).collect() }
     }
     /// Groups of `n` consecutive items; a group is one task (its items are evaluated one after the other inside it).
     pub fn chunks(self, n: usize) -> Par<'a, Vec<T>> {
@@ -490,17 +493,15 @@ impl<'a, T: Send + 'a> Par<'a, T> {
             }
             groups.last_mut().unwrap().push(t);
         }
-        Par { indexed, thunks: groups.into_iter().map(|g| Box::new(move || Some(g.into_iter().filter_map(|t| t()).collect::<Vec<T>>())) as Thunk<'a, Vec<T>>).collect() }
+        Par { indexed, ready: false, thunks: groups.into_iter().map(|g| Box::new(move || Some(g.into_iter().filter_map(|t| t()).collect::<Vec<T>>())) as Thunk<'a, Vec<T>>).collect() }
     }
-    /// Every task gets its own clone of `init` (the finest split rayon may choose).
+    /// Every run of the chosen split gets its own clone of `init` (see `map_runs`).
     pub fn map_with<S: Send + Clone + 'a, R: Send + 'a, F: Fn(&mut S, T) -> R + Send + Sync + 'a>(self, init: S, f: F) -> Par<'a, R> {
-        let f = Arc::new(f);
-        Par { indexed: self.indexed, thunks: self.thunks.into_iter().map(|t| { let f = f.clone(); let mut st = init.clone(); Box::new(move || t().map(|x| f(&mut st, x))) as Thunk<'a, R> }).collect() }
+        let init = Mutex::new(init); // (rayon asks for Send + Clone only)
+        self.map_runs(Arc::new(move || init.lock().unwrap().clone()), Arc::new(f))
     }
     pub fn map_init<S: 'a, R: Send + 'a, INIT: Fn() -> S + Send + Sync + 'a, F: Fn(&mut S, T) -> R + Send + Sync + 'a>(self, init: INIT, f: F) -> Par<'a, R> {
-        let f = Arc::new(f);
-        let init = Arc::new(init);
-        Par { indexed: self.indexed, thunks: self.thunks.into_iter().map(|t| { let f = f.clone(); let init = init.clone(); Box::new(move || t().map(|x| { let mut st = init(); f(&mut st, x) })) as Thunk<'a, R> }).collect() }
+        self.map_runs(Arc::new(init), Arc::new(f))
     }
     pub fn for_each_with<S: Send + Clone + 'a, F: Fn(&mut S, T) + Send + Sync + 'a>(self, init: S, f: F) {
         let _ = self.map_with(init, f).drive();
@@ -545,6 +546,9 @@ impl<'a, T: Send + 'a> Par<'a, T> {
     /// Run the region; items in collect order.
     fn drive(self) -> Vec<T> {
         let indexed = self.indexed;
+        if self.ready && indexed {
+            return self.thunks.into_iter().filter_map(|t| t()).collect();
+        }
         let (res, order) = run_region(self.thunks);
         if indexed {
             res.into_iter().flatten().collect()
@@ -582,35 +586,50 @@ impl<'a, T: Send + 'a> Par<'a, T> {
     /// default = one accumulator per item, the finest split), for more items three alternatives (finest, one single run, two
     /// halves). A run is one task; its items are evaluated one after the other inside it.
     pub fn fold<A: Send + 'a, ID: Fn() -> A + Send + Sync + 'a, F: Fn(A, T) -> A + Send + Sync + 'a>(self, identity: ID, f: F) -> Par<'a, A> {
-        let n = self.thunks.len();
-        // boundary after item i (0-based, i < n-1) <=> bit i of `cuts`
-        let cuts: u64 = if n <= 1 {
-            0
+        let indexed = self.indexed;
+        let groups = Self::split_runs(self.thunks);
+        let f = Arc::new(f);
+        let identity = Arc::new(identity);
+        Par { indexed, ready: false, thunks: groups.into_iter().map(|g| { let (f, identity) = (f.clone(), identity.clone()); Box::new(move || Some(g.into_iter().filter_map(|t| t()).fold(identity(), |a, x| f(a, x)))) as Thunk<'a, A> }).collect() }
+    }
+    /// The items cut into sequential runs at the boundaries the explorer chooses (see `fold`).
+    fn split_runs(thunks: Vec<Thunk<'a, T>>) -> Vec<Vec<Thunk<'a, T>>> {
+        let n = thunks.len();
+        if n == 0 {
+            return Vec::new();
+        }
+        // which of the three coarse alternatives (more than 5 items), or the set of boundaries (bit i = boundary after item i)
+        let (coarse, cuts): (Option<usize>, u64) = if n <= 1 {
+            (None, 0)
         } else if n <= 5 {
             let all = (1u64 << (n - 1)) - 1;
-            all & !(sched::choose(1usize << (n - 1)) as u64)
+            (None, all & !(sched::choose(1usize << (n - 1)) as u64))
         } else {
-            match sched::choose(3) {
-                0 => u64::MAX,
-                1 => 0,
-                _ => 1u64 << ((n / 2 - 1).min(63)),
-            }
+            (Some(sched::choose(3)), 0)
         };
-        let cut_after = |i: usize| if n > 5 && cuts != u64::MAX && cuts != 0 { i == n / 2 - 1 } else { cuts == u64::MAX || (i < 64 && cuts >> i & 1 == 1) };
-        let indexed = self.indexed;
+        let cut_after = |i: usize| match coarse {
+            Some(0) => true,
+            Some(1) => false,
+            Some(_) => i == n / 2 - 1,
+            None => cuts >> i & 1 == 1,
+        };
         let mut groups: Vec<Vec<Thunk<'a, T>>> = vec![Vec::new()];
-        for (i, t) in self.thunks.into_iter().enumerate() {
+        for (i, t) in thunks.into_iter().enumerate() {
             groups.last_mut().unwrap().push(t);
             if i + 1 < n && cut_after(i) {
                 groups.push(Vec::new());
             }
         }
-        if n == 0 {
-            groups.clear();
-        }
-        let f = Arc::new(f);
-        let identity = Arc::new(identity);
-        Par { indexed, thunks: groups.into_iter().map(|g| { let (f, identity) = (f.clone(), identity.clone()); Box::new(move || Some(g.into_iter().filter_map(|t| t()).fold(identity(), |a, x| f(a, x)))) as Thunk<'a, A> }).collect() }
+        groups
+    }
+    /// One task per run; inside it the items are evaluated one after the other with ONE state (rayon clones / creates the
+    /// state of `map_with` / `map_init` once per split, not once per item: what a closure leaves in it is seen by the next
+    /// item of the same run). Staged like `flat_map`: the region runs here, the results go on as items.
+    fn map_runs<S: 'a, R: Send + 'a>(self, mk: Arc<dyn Fn() -> S + Send + Sync + 'a>, f: Arc<dyn Fn(&mut S, T) -> R + Send + Sync + 'a>) -> Par<'a, R> {
+        let indexed = self.indexed;
+        let groups = Self::split_runs(self.thunks);
+        let parts: Vec<Vec<Option<R>>> = Par { indexed, ready: false, thunks: groups.into_iter().map(|g| { let (mk, f) = (mk.clone(), f.clone()); Box::new(move || { let mut st = mk(); Some(g.into_iter().map(|t| t().map(|x| f(&mut st, x))).collect::<Vec<Option<R>>>()) }) as Thunk<'a, Vec<Option<R>>> }).collect() }.drive();
+        Par { indexed, ready: true, thunks: parts.into_iter().flatten().map(|o| Box::new(move || o) as Thunk<'a, R>).collect() }
     }
     pub fn flat_map<R: Send + 'a, I: IntoIterator<Item = R>, F: Fn(T) -> I + Send + Sync + 'a>(self, f: F) -> Par<'a, R> {
         // staged: the inner iterators are produced by one region, then flattened in index order
